@@ -685,13 +685,29 @@ def bld_probe(case, impl_trace, model_trace):
     every client whose service call the implementation reported is closed (F<cid>: lenient finish), the server is resumed if the
     scenario left it paused, a back-off is waited out, and one fresh client connects to every listener.  With capacity free and the
     server running each of them must then be served (clause C03/C05 of bld_pred) by the right service (C01), within the limit (C02)."""
+    return _bld_probe(case, impl_trace, False)
+
+
+def bld_probe_faults(case, impl_trace, model_trace):
+    """the same for scenarios in which workers died (C08): everything is closed, and then as many fresh clients connect to the
+    first listener as fit below the limit of every worker (W * (L - 1), at most 2 W): if a dead worker was not replaced the
+    rotation over W workers is broken (rotation clause of bld_pred)"""
+    return _bld_probe(case, impl_trace, True)
+
+
+def _bld_probe(case, impl_trace, faults):
     W, L, tok_call, ops = bld_parse_case(case)
     steps = bld_parse_trace(impl_trace)
-    if not steps or not ops or ops[-1][0] in "GH" or any(o[0] in "KJD" for o in ops):
+    if not steps or not ops or ops[-1][0] in "GH" or any(o[0] in ("D" if faults else "KJD") for o in ops):
         return []
     served, closed, paused, cid = set(), set(), False, 0
     for o in ops:
-        if o[0] in "cEAXYS":
+        if o[0] in "KJ":
+            cid += 1
+            closed.add(cid)          # the poisoned client
+            if o[0] == "J":
+                cid += 1
+        elif o[0] in "cEAXYS":
             cid += 1
             if o[0] == "A":
                 closed.add(cid)
@@ -710,7 +726,10 @@ def bld_probe(case, impl_trace, model_trace):
         cont.append("R")
     if any(o[0] == "E" for o in ops):
         cont.append("+600")
-    cont += ["c%d" % t for t in range(len(tok_call))]
+    if faults:
+        cont += ["c0"] * min(2 * W, W * (L - 1))
+    else:
+        cont += ["c%d" % t for t in range(len(tok_call))]
     head = case.split(";exp=")[0]
     try:
         return bld_annotate([head + " " + " ".join(cont)])
@@ -755,7 +774,7 @@ def bld_stream(ctx, which, flags_choices, n_quick, n_thorough, **kw):
                            "listeners via listen/bind/bind_uds/listen_uds, actix System and plain Tokio runtimes, pause/resume, real EMFILE via "
                            "RLIMIT_NOFILE); after each op the set of service calls that started (connection id, listener's service, worker index) and "
                            "the in-progress count per worker are compared with the settled model (extracted Srv.v + Builder.v)" % n)
-    st.probe = bld_probe
+    st.probe = bld_probe_faults if "C08" in which else bld_probe
     st.per_shard = 2   # a scenario takes about a second of real time
     st.prepare = lambda c: bld_annotate([c])[0]
     def stats(cases, impl, model):
